@@ -3,6 +3,8 @@
 
 package gldap
 
+import "math"
+
 type controlOptions struct {
 	withGrace        int
 	withExpire       int
@@ -53,6 +55,11 @@ func WithSecondsBeforeExpiration(seconds uint) Option {
 func WithErrorCode(code uint) Option {
 	return func(o interface{}) {
 		if o, ok := o.(*controlOptions); ok {
+			if code > math.MaxInt {
+				// keep out-of-range codes out of range: a plain conversion
+				// would wrap them into negative (or valid) values
+				code = math.MaxInt
+			}
 			o.withErrorCode = int(code)
 		}
 	}
